@@ -250,7 +250,7 @@ func c09ProblemsRecorded(c *eng.Ctx) {
 }
 
 func c09CrossDevice(c *eng.Ctx, rule string) {
-	fn := c.MustFunc(rule,corePkg, "transitioner.findAndMoveStagedFileIntoPlace")
+	fn := c.MustFunc(rule, corePkg, "transitioner.findAndMoveStagedFileIntoPlace")
 	if fn == nil {
 		return
 	}
@@ -263,7 +263,7 @@ func c09CrossDevice(c *eng.Ctx, rule string) {
 		cp, _ = call.(*ssa.Call)
 	}
 	if tmp == nil || cp == nil {
-		c.Problem(rule,"cross-device fallback (CreateTemporaryFile / io.CopyBuffer) not found")
+		c.Problem(rule, "cross-device fallback (CreateTemporaryFile / io.CopyBuffer) not found")
 		return
 	}
 	tmpName := eng.Render(tmp) + "#0"
@@ -291,10 +291,10 @@ func c09CrossDevice(c *eng.Ctx, rule string) {
 				}
 			}
 		}
-		c.Check(rule,fmt.Sprintf("temporary-cleaned#%d", n), r.Pos(), removed, "an error exit after the temporary file was created removes the temporary")
+		c.Check(rule, fmt.Sprintf("temporary-cleaned#%d", n), r.Pos(), removed, "an error exit after the temporary file was created removes the temporary")
 	}
 	if n < 4 {
-		c.Problem(rule,"expected ≥4 error exits after temporary creation, found %d", n)
+		c.Problem(rule, "expected ≥4 error exits after temporary creation, found %d", n)
 	}
 	// rename from the temporary is guarded by copy success and permission success
 	copyOK := `^\(` + eng.Q(eng.Render(cp)) + `#1 == nil\)$`
@@ -306,14 +306,14 @@ func c09CrossDevice(c *eng.Ctx, rule string) {
 		case "filesystem.Rename":
 			if eng.Render(args[1]) == tmpName {
 				g := eng.Guards(call)
-				c.Check(rule,"rename-after-copy", call.Pos(), eng.HasAtom(g, copyOK, true), "the intermediate copy is renamed into place only if the copy reported no error", eng.AtomsText(g))
-				c.Check(rule,"rename-after-chmod", call.Pos(), eng.HasAtom(g, `^\(\(\*filesystem\.Directory\)\.SetPermissions\(p3, `+eng.Q(tmpName)+`, .*\) == nil\)$`, true), "… and only after its permissions were set")
+				c.Check(rule, "rename-after-copy", call.Pos(), eng.HasAtom(g, copyOK, true), "the intermediate copy is renamed into place only if the copy reported no error", eng.AtomsText(g))
+				c.Check(rule, "rename-after-chmod", call.Pos(), eng.HasAtom(g, `^\(\(\*filesystem\.Directory\)\.SetPermissions\(p3, `+eng.Q(tmpName)+`, .*\) == nil\)$`, true), "… and only after its permissions were set")
 			}
 		case "(*filesystem.Directory).SetPermissions", "filesystem.SetPermissionsByPath":
 			modes = append(modes, eng.Render(args[len(args)-1]))
 			if name == "(*filesystem.Directory).SetPermissions" {
 				g := eng.Guards(call)
-				c.Check(rule,"chmod-after-copy", call.Pos(), eng.HasAtom(g, copyOK, true), "permissions are applied to the intermediate copy only after a complete copy", eng.AtomsText(g))
+				c.Check(rule, "chmod-after-copy", call.Pos(), eng.HasAtom(g, copyOK, true), "permissions are applied to the intermediate copy only after a complete copy", eng.AtomsText(g))
 			}
 		}
 	}
@@ -323,9 +323,9 @@ func c09CrossDevice(c *eng.Ctx, rule string) {
 			same = false
 		}
 	}
-	c.Check(rule,"same-mode", fn.Pos(), same && strings.Contains(modes[0], "markExecutableForReaders"), "the staged file and the intermediate copy receive the same computed mode (executable bits included)", strings.Join(modes, " | "))
+	c.Check(rule, "same-mode", fn.Pos(), same && strings.Contains(modes[0], "markExecutableForReaders"), "the staged file and the intermediate copy receive the same computed mode (executable bits included)", strings.Join(modes, " | "))
 	// copy direction
 	dst, src := eng.Render(cp.Call.Args[0]), eng.Render(cp.Call.Args[1])
-	c.Check(rule,"copy-direction", cp.Pos(), strings.Contains(dst, eng.Render(tmp)+"#1") && strings.Contains(src, "os.Open("), "the copy reads the staged file and writes the temporary", dst+" <- "+src)
-	c.Floor(rule,9)
+	c.Check(rule, "copy-direction", cp.Pos(), strings.Contains(dst, eng.Render(tmp)+"#1") && strings.Contains(src, "os.Open("), "the copy reads the staged file and writes the temporary", dst+" <- "+src)
+	c.Floor(rule, 9)
 }
